@@ -443,6 +443,144 @@ def recover_comprehensions(body):
     return out
 
 
+class _SplitTupleAssigns(ast.NodeTransformer):
+    """`a, b = x, y` is `a = x; b = y` when no later value reads what an earlier target writes (all values of a tuple
+    assignment are evaluated before the first target is bound)"""
+
+    @staticmethod
+    def _written(t):
+        while isinstance(t, (ast.Subscript, ast.Attribute)):
+            t = t.value
+        return {t.id} if isinstance(t, ast.Name) else None
+
+    def _split(self, st):
+        if not (isinstance(st, ast.Assign) and len(st.targets) == 1 and isinstance(st.targets[0], (ast.Tuple, ast.List)) and
+                isinstance(st.value, (ast.Tuple, ast.List)) and len(st.targets[0].elts) == len(st.value.elts) and
+                not any(isinstance(x, ast.Starred) for x in st.targets[0].elts + st.value.elts)):
+            return [st]
+        ts, vs = st.targets[0].elts, st.value.elts
+        written = set()
+        for t, v in zip(ts, vs):
+            reads = {n.id for n in ast.walk(v) if isinstance(n, ast.Name)}
+            if reads & written:
+                return [st]
+            if isinstance(t, (ast.Tuple, ast.List)):
+                w = set()
+                for e in t.elts:
+                    we = self._written(e)
+                    if we is None:
+                        return [st]
+                    w |= we
+            else:
+                w = self._written(t)
+                if w is None:
+                    return [st]
+            written |= w
+        out = []
+        for t, v in zip(ts, vs):
+            out.extend(self._split(ast.copy_location(ast.Assign(targets=[t], value=v, type_comment=None), st)))
+        return out
+
+    def generic_visit(self, node):
+        super().generic_visit(node)
+        for field in ('body', 'orelse', 'finalbody'):
+            b = getattr(node, field, None)
+            if isinstance(b, list) and any(isinstance(s, ast.Assign) for s in b):
+                nb = []
+                for s in b:
+                    nb.extend(self._split(s))
+                setattr(node, field, nb)
+        return node
+
+
+class _GuardContinue(ast.NodeTransformer):
+    """in a loop body, `if C: continue` followed by the rest R of the body is `if not C: R`"""
+
+    def _loop(self, node):
+        self.generic_visit(node)
+        node.body = self._rewrite(node.body)
+        return node
+    visit_For = visit_While = _loop
+
+    def _rewrite(self, body):
+        for k, st in enumerate(body):
+            if isinstance(st, ast.If) and not st.orelse and len(st.body) == 1 and isinstance(st.body[0], ast.Continue) \
+                    and k + 1 < len(body):
+                rest = self._rewrite(body[k + 1:])
+                test = st.test.operand if isinstance(st.test, ast.UnaryOp) and isinstance(st.test.op, ast.Not) \
+                    else ast.copy_location(ast.UnaryOp(op=ast.Not(), operand=st.test), st.test)
+                return body[:k] + [ast.copy_location(ast.If(test=test, body=rest, orelse=[]), st)]
+        return body
+
+
+class _NormaliseIfs(ast.NodeTransformer):
+    """`if not C: A else: B` is `if C: B else: A`; an arm that is only `pass` is no arm"""
+
+    def visit_If(self, node):
+        self.generic_visit(node)
+        only_pass = lambda b: bool(b) and all(isinstance(s, ast.Pass) for s in b)
+        if only_pass(node.orelse):
+            node.orelse = []
+        if isinstance(node.test, ast.UnaryOp) and isinstance(node.test.op, ast.Not) and node.orelse:
+            node.test = node.test.operand
+            node.body, node.orelse = node.orelse, node.body
+            if only_pass(node.orelse):
+                node.orelse = []
+        return node
+
+
+def resolve_bound_method_aliases(fn):
+    """`add = xs.append ... add(v)` is `xs.append(v)` when `add` is bound once, only ever called, and `xs` is not rebound
+    after the alias is taken (a bound method keeps the object it was taken from)"""
+    params = {a.arg for a in fn.args.posonlyargs + fn.args.args + fn.args.kwonlyargs}
+    stores, loads = {}, {}
+    for n in ast.walk(fn):
+        if isinstance(n, ast.Name):
+            (stores if isinstance(n.ctx, (ast.Store, ast.Del)) else loads).setdefault(n.id, []).append(n)
+        elif isinstance(n, (ast.FunctionDef, ast.ClassDef)) and n is not fn:
+            stores.setdefault(n.name, []).append(n)
+    call_funcs = {id(c.func) for c in ast.walk(fn) if isinstance(c, ast.Call)}
+    done = 0
+    cands = []
+    for st in [s for s in ast.walk(fn) if isinstance(s, ast.Assign)]:
+        if len(st.targets) == 1 and isinstance(st.targets[0], ast.Name) and isinstance(st.value, ast.Attribute) \
+                and isinstance(st.value.value, ast.Name):
+            cands.append((st, None, st.targets[0].id, st.value.value.id, st.value.attr))
+        elif len(st.targets) == 1 and isinstance(st.targets[0], ast.Tuple) and isinstance(st.value, ast.Tuple) and \
+                len(st.targets[0].elts) == len(st.value.elts) and all(isinstance(t, ast.Name) for t in st.targets[0].elts):
+            for t_, v_ in zip(list(st.targets[0].elts), list(st.value.elts)):
+                if isinstance(v_, ast.Attribute) and isinstance(v_.value, ast.Name):
+                    cands.append((st, (t_, v_), t_.id, v_.value.id, v_.attr))
+    for st, pair, alias, owner, meth in cands:
+        if alias in params or len(stores.get(alias, [])) != 1 or not loads.get(alias):
+            continue
+        if any(id(n) not in call_funcs for n in loads[alias]):
+            continue
+        ostores = stores.get(owner, [])
+        if owner in params:
+            if ostores:
+                continue
+        elif len(ostores) > 1 or (ostores and getattr(ostores[0], 'lineno', 10 ** 9) > st.lineno):
+            continue
+        if any(n.lineno < st.lineno for n in loads[alias]):
+            continue
+        for n in loads[alias]:
+            n_ = ast.copy_location(ast.Attribute(value=ast.copy_location(ast.Name(id=owner, ctx=ast.Load()), n), attr=meth,
+                                                 ctx=ast.Load()), n)
+            _replace(fn, n, n_)
+        if pair is None or st.targets[0] is pair[0]:
+            _replace(fn, st, ast.copy_location(ast.Pass(), st))
+        else:
+            st.targets[0].elts.remove(pair[0])
+            st.value.elts.remove(pair[1])
+            if len(st.targets[0].elts) == 1:
+                st.targets[0], st.value = st.targets[0].elts[0], st.value.elts[0]
+            elif not st.targets[0].elts:
+                _replace(fn, st, ast.copy_location(ast.Pass(), st))
+        done += 1
+    return done
+
+
 def inline_project(trees, exports):
     """trees: {module name: ast.Module}; exports: set of public function names.  Rewrites the trees in place."""
     helpers = {}
@@ -467,6 +605,13 @@ def inline_project(trees, exports):
     for mod, tree in trees.items():
         mglobals = {t_.id: st_.value for st_ in tree.body if isinstance(st_, ast.Assign) and len(st_.targets) == 1
                     for t_ in [st_.targets[0]] if isinstance(t_, ast.Name)}
+        for st in tree.body:
+            for fn_ in ([st] if isinstance(st, ast.FunctionDef) else
+                        [b for b in st.body if isinstance(b, ast.FunctionDef)] if isinstance(st, ast.ClassDef) else []):
+                resolve_bound_method_aliases(fn_)
+                _SplitTupleAssigns().visit(fn_)
+                _NormaliseIfs().visit(fn_)
+                _GuardContinue().visit(fn_)
         for st in tree.body:
             if isinstance(st, ast.FunctionDef):
                 st.body = recover_comprehensions(split_conditional_statements(unroll_constant_loops(st.body, mglobals)))
